@@ -32,6 +32,15 @@ var (
 	regexNoAlphaNum = regexp.MustCompile("[^a-zA-Z0-9]")
 )
 
+// Absolute returns an alias for the given full import path,
+// aliases defined by users are not applied whenever the given aliaser supports it, see AliasAbsolute.
+func Absolute(a interface{ Alias(string) string }, import_ string) string {
+	if abs, ok := a.(interface{ AliasAbsolute(string) string }); ok {
+		return abs.AliasAbsolute(import_)
+	}
+	return a.Alias(import_)
+}
+
 type Import struct {
 	Alias string // e.g. "viper"
 	Path  string // e.g. "github.com/spf13/viper"
@@ -63,10 +72,17 @@ func (i *imports) RegisterPrefixAlias(alias string, path string) error {
 }
 
 // Alias generates an alias for given path and adds path to collection of all imports.
+// Prefixes registered by RegisterPrefixAlias are applied.
 // See Imports.
 func (i *imports) Alias(import_ string) string {
-	import_ = i.decorateImport(import_)
+	return i.AliasAbsolute(i.decorateImport(import_))
+}
 
+// AliasAbsolute generates an alias for the given full import path.
+// In contrast to Alias, prefixes registered by RegisterPrefixAlias are not applied.
+// It is designed for packages imported by the generated code itself (e.g. "fmt", "os"),
+// so the user-defined alias "os" does not hijack them.
+func (i *imports) AliasAbsolute(import_ string) string {
 	if imp, ok := i.imports[import_]; ok {
 		return imp
 	}
